@@ -358,6 +358,90 @@ def premaster_version(chk):
                           key='%s %s' % (R, fn))
 
 
+def handshake_state_reset(chk):
+    """A context can be reset and reused: every field that the handshake bytecode both reads and writes at a constant offset
+    (handshake-mutable state) must start each connection from a defined value -- (a) written by the handshake before every read,
+    on all paths from the entry word, or (b) stored on every non-failing path of the C reset chain
+    (br_ssl_{client,server}_reset -> br_ssl_engine_set_buffer(NULL) -> set_buffers_bidi, br_ssl_engine_hs_reset), or (c) session
+    parameters that deliberately survive for resumption.  Otherwise what the previous connection negotiated leaks into the next."""
+    from .. import t0rules
+    from ..oblig import ICall
+    R = 'handshake-state-reinitialised'
+    s = 'src/ssl/ssl_engine.c'
+    PERSIST = {
+        'eng.session.session_id_len': 'resumption parameter: cleared by br_ssl_client_reset unless resuming, overwritten by the server for every ClientHello',
+        'eng.session.version': 'resumption parameter (compared with the ServerHello when resuming)',
+        'eng.session.cipher_suite': 'resumption parameter (compared with the ServerHello when resuming)',
+    }
+    # (b) C reset chain: fields stored on every path that does not fail, under "no new buffer, buffers already set"
+    eng = irf.Layouts(build.load_unit(s))
+    U = oblig.funit(s)
+
+    def c_reset_writes(off, size):
+        def pred(F, i):
+            if i['op'] == 'call' and i.get('callee') == 'br_ssl_engine_fail':
+                return True
+            if i['op'] != 'store':
+                return False
+            b, o = F.addr_of(i['ops'][1])
+            return b == {'k': 'a', 'v': 0} and o is not None and o <= off < o + max(i.get('size', 1), 1)
+        res = []
+        # set_buffers_bidi(rc, NULL, 0, NULL, 0) with rc->ibuf already set
+        o_ibuf = eng.field('br_ssl_engine_context', 'ibuf')[0]
+        hy = [dict(kind='assume', n=U.func('br_ssl_engine_set_buffers_bidi').f['params'][1]['n'], ty='i8*', pred='eq', value='null', param=True)]
+        fl = U.field_loads('br_ssl_engine_set_buffers_bidi', 0, o_ibuf)
+        hy += [dict(kind='pin', n=x['n'], value='inttoptr (i64 4096 to i8*)') for x in fl]
+        Fo = U.optimise('br_ssl_engine_set_buffers_bidi', hy, ('br_ssl_engine_fail', 'make_ready_in', 'make_ready_out'))
+        res.append(fold.expect_on_all_paths_from_entry(Fo, pred, 'a store to the field')[0])
+        Fh = U.func('br_ssl_engine_hs_reset')
+        res.append(fold.expect_on_all_paths_from_entry(Fh, pred, 'a store to the field')[0])
+        for src2, fn in (('src/ssl/ssl_client.c', 'br_ssl_client_reset'), ('src/ssl/ssl_server.c', 'br_ssl_server_reset')):
+            F2 = oblig.funit(src2).func(fn)
+            # only judged on the success return (ret 1 paths are after hs_reset); a plain dominance test is enough here
+            rets = [b['insts'][-1] for b in F2.blocks if b['insts'][-1]['op'] == 'ret']
+            sts = [i for i in F2.insts.values() if pred(F2, i) and i['op'] == 'store']
+            hs = F2.calls('br_ssl_engine_hs_reset')
+            res.append(bool(sts) and bool(hs) and all(any(F2.dominates(x['id'], h['id']) for x in sts) for h in hs))
+        return res
+    n = 0
+    for key, resetfn in (('hs_client', 3), ('hs_server', 4)):
+        P = t0.Program(key)
+        L = P.layouts
+        I = t0ai.Interp(P).run_entry()
+        rd, wr = {}, {}
+        for e in I.events:
+            if e.name in ('get8', 'get16', 'get32') and e.args and e.args[-1].isconst():
+                rd.setdefault(e.args[-1].c, set()).add((e.word, e.pc))
+            if e.name in ('set8', 'set16', 'set32') and e.args[-1].isconst():
+                wr.setdefault(e.args[-1].c, set()).add((e.word, e.pc))
+        for off in sorted(set(rd) & set(wr)):
+            fa = L.field_at(P.ctxname, off)
+            name = fa[2] if fa else 'offset %d' % off
+            n += 1
+            inst = '%s: %s starts every connection from a defined value' % (key, name)
+            if name in PERSIST:
+                chk.ok(R, inst, P.src, 'deliberately persistent: ' + PERSIST[name], nontrivial=False)
+                continue
+            mc, _ = t0rules.must_call(P, -1, sorted(rd[off]), gensites=wr[off])
+            if all(mc.get(x) for x in rd[off]):
+                chk.ok(R, inst, P.src, 'written by the handshake before each of its %d read site(s)' % len(rd[off]))
+                continue
+            if not name.startswith('eng.'):
+                chk.violation(R, inst, P.src, 'read before written, and not an engine field the common reset chain could initialise', key='%s %s %s' % (R, key, name))
+                continue
+            w = c_reset_writes(off, fa[1])
+            # set_buffers_bidi(NULL), hs_reset, client_reset, server_reset
+            okk = w[0] or w[1] or w[2 if key == 'hs_client' else 3]
+            if okk:
+                which = [nm for nm, x in zip(('set_buffers_bidi(NULL)', 'hs_reset', 'client_reset', 'server_reset'), w) if x]
+                chk.ok(R, inst, P.src, 'stored on every non-failing path of %s' % ', '.join(which))
+            else:
+                chk.violation(R, inst, P.src, 'the handshake reads this field before writing it (W%d@%d) and neither br_ssl_engine_set_buffers_bidi (buffers reused), '
+                              'br_ssl_engine_hs_reset nor br_ssl_%s_reset stores it: a reused context starts the next handshake with the value the previous '
+                              'connection negotiated' % (sorted(rd[off])[0] + (key[3:],)), key='%s %s %s' % (R, key, name))
+    chk.floor('handshake-mutable fields examined', n, 12)
+
+
 def run(tier):
     chk = report.Check('C01', tier,
                        'Static clauses of "both sides agree": the cipher-suite table of both handshake interpreters equals the IANA registry '
@@ -375,6 +459,7 @@ def run(tier):
     switch_encryption(chk)
     key_block_layout(chk)
     premaster_version(chk)
+    handshake_state_reset(chk)
     from .. import engio, oblig as _ob
     _ob.run_obligations(chk, engio.progress_obligations())
     engio.ready_state(chk)
